@@ -1397,3 +1397,4 @@ case("c13-scope-match-raw-strings", "C13", "mutant", [("src/stabilize/events/rec
 case("c13-refactor-scope-match-inline", "C13", "refactor", [("src/stabilize/events/recorder/base.py", """        same_database = get_connection_manager()._parse_sqlite_path
         return bool(same_database(store_url) == same_database(scope.url))""", """        mgr = get_connection_manager()
         return mgr._parse_sqlite_path(scope.url) == mgr._parse_sqlite_path(store_url)""")])
+case("c13-txn-catches-exception-only", "C13", "mutant", [("src/stabilize/persistence/sqlite/store/store.py", "        except BaseException:", "        except Exception:")], "C13.R2")
